@@ -53,8 +53,10 @@ def execute(ob):
     out["pids"] = list(PIDS)
     out["projectilePID"] = 11
     r = EXSResult(0.3, Q2, 0.7, None) if xs else ESFResult(0.3, Q2, None)
+    # opexp: the same operator in units of 2^-opexp (entries far below 1e-8; the contraction is homogeneous, the rescaling exact)
+    unit = 2.0 ** -ob.get("opexp", 0)
     for key, opk in zip(ob["keys"], ob["op"]):
-        v = np.array(opk, dtype=float)
+        v = np.array(opk, dtype=float) * unit
         r.orders[tuple(key)] = (v, 2.0 * v)
     out[oname] = [r]
     state = dict(scales_ok=True, read_missing=False)
@@ -79,9 +81,9 @@ def execute(ob):
                 if xs and p.get("y") != 0.7:
                     line["outcome"] = "Crash_LostY"
                 e = common.frac(ob["expect"][lr][lf])
-                row.append(common.snap(float(p["result"]), e, rel=1e-11, abs_=1e-12))
-                rowe.append(common.snap(float(p["error"]), 2 * e, rel=1e-11, abs_=1e-12))
-                line["raw"].append(float(p["result"]))
+                row.append(common.snap(float(p["result"]) / unit, e, rel=1e-11, abs_=1e-12))
+                rowe.append(common.snap(float(p["error"]) / unit, 2 * e, rel=1e-11, abs_=1e-12))
+                line["raw"].append(float(p["result"]) / unit)
             line["observed"].append(row)
             line["observed_err"].append(rowe)
     except Exception as ex:
@@ -166,9 +168,9 @@ def run(ctx):
                         env=dict(OUT2=str(out2)))
     alph = [o for o in common.read_ndjson(out2) if o["valid"]]
     # every obligation on a structure-function result and on a cross-section result (EXSResult: the same contraction, plus y)
-    obls = [dict(o, cls=c) for o in obls for c in ("SF", "XS")]
+    obls = [dict(o, cls=c, opexp=e) for o in obls for c, e in (("SF", 0), ("XS", 0), ("SF", 40))]
     for o in obls:
-        o["oid"] = common.oid_of("C17", dict(pto=o["pto"], v=o["v"], cls=o["cls"]))
+        o["oid"] = common.oid_of("C17", dict(pto=o["pto"], v=o["v"], cls=o["cls"], opexp=o["opexp"]))
     for o in alph:
         o["oid"] = common.oid_of("C17", {k: o[k] for k in ("fns", "nfff", "m", "k")})
     lines = ctx.pmap(execute, obls, chunksize=2) + ctx.pmap(execute_alpha, alph, chunksize=4)
@@ -188,7 +190,7 @@ def run(ctx):
     for oid, clause in bad.items():
         ln = by[oid]
         if ln["kind"] == "pred":
-            key = f"pred:{ln['cls']}:pto{ln['pto']}:v{ln['v']}:{clause}"
+            key = f"pred:{ln['cls']}{'.tiny' if allob[oid].get('opexp') else ''}:pto{ln['pto']}:v{ln['v']}:{clause}"
             what = f"apply_pdf on integer operators ({ln['cls']} result, keys up to pto {ln['pto']}, variant {ln['v']}): {clause}"
         else:
             key = f"alphas:{ln['fns']}{ln['nfff']}:m{ln['m']}:k{ln['k']}:{clause}"
